@@ -160,28 +160,43 @@ class Check:
         return True
 
     def print_assumptions(self, requires, names):
-        """returns {name: 'closed' | [axioms]}; registers obligations"""
+        """returns {name: 'closed' | [axioms]}; registers obligations.  One coqc run per required module, so that a
+        module that no longer builds only loses its own theorems."""
         tmpd = os.path.join(CACHE, "pa")
         os.makedirs(tmpd, exist_ok=True)
-        fn = os.path.join(tmpd, "PA_%s.v" % self.prop)
-        with open(fn, "w") as f:
-            for r in requires:
-                f.write("Require %s.\n" % r)
-            for n in names:
-                f.write('Goal True. idtac "@@BEGIN %s". Abort.\nPrint Assumptions %s.\n' % (n, n))
-            f.write('Goal True. idtac "@@END". Abort.\n')
-        rc, out = sh(["coqc", "-Q", "theories", "DS", "-Q", "generated", "DSG", "-Q", "props", "DSP",
-                      "-Q", tmpd, "PA", fn], cwd=os.path.join(ROOT, "coq"), timeout=600)
+        groups = {}
+        for n in names:
+            mod = ".".join(n.split(".")[:2]) if n.count(".") >= 2 else (requires[0] if requires else "")
+            groups.setdefault(mod, []).append(n)
         res = {}
-        chunks = re.split(r"@@BEGIN (\S+)\n", out)
-        # chunks: [pre, name1, body1, name2, body2, ...]
-        for i in range(1, len(chunks) - 1, 2):
-            name, body = chunks[i], chunks[i + 1].split("@@END")[0]
-            if "Closed under the global context" in body:
-                res[name] = "closed"
-            else:
-                ax = re.findall(r"^(\S+)\s*:", body, re.M)
-                res[name] = ax if ax else ["?unparsed: " + body.strip()[:200]]
+
+        def one(item):
+            mod, ns = item
+            fn = os.path.join(tmpd, "PA_%s_%s.v" % (self.prop, mod.replace(".", "_")))
+            with open(fn, "w") as f:
+                reqs = [mod] if mod in requires or not requires else list(requires)
+                if mod and mod not in reqs:
+                    reqs.append(mod)
+                for r in reqs:
+                    f.write("Require %s.\n" % r)
+                for n in ns:
+                    f.write('Goal True. idtac "@@BEGIN %s". Abort.\nPrint Assumptions %s.\n' % (n, n))
+                f.write('Goal True. idtac "@@END". Abort.\n')
+            rc, out = sh(["coqc", "-Q", "theories", "DS", "-Q", "generated", "DSG", "-Q", "props", "DSP",
+                          "-Q", tmpd, "PA", fn], cwd=os.path.join(ROOT, "coq"), timeout=600)
+            r = {}
+            chunks = re.split(r"@@BEGIN (\S+)\n", out)
+            for i in range(1, len(chunks) - 1, 2):
+                name, body = chunks[i], chunks[i + 1].split("@@END")[0]
+                if "Closed under the global context" in body:
+                    r[name] = "closed"
+                else:
+                    ax = re.findall(r"^(\S+)\s*:", body, re.M)
+                    r[name] = ax if ax else ["?unparsed: " + body.strip()[:200]]
+            return r
+        with ThreadPoolExecutor(max_workers=8) as ex:
+            for r in ex.map(one, groups.items()):
+                res.update(r)
         for n in names:
             self.obligations.append(n)
             r = res.get(n)
